@@ -42,7 +42,7 @@ PLT_NAMES = (".plt", ".plt.got", ".plt.sec", ".iplt")
 # Structural validator
 
 
-def eh_validate(path, who, expect_hdr):
+def eh_validate(path, who, expect_hdr, strict_terminators=False):
     """Parses the output's unwind tables and checks clauses (1)-(3). Returns a dict with the parsed
     data. Raises Violation."""
     try:
@@ -62,6 +62,11 @@ def eh_validate(path, who, expect_hdr):
             raise Violation("eh-frame-" + e.kind, f"{who}: .eh_frame: {e.msg}")
         for t in terms:
             if t + 4 != sec.size:
+                from vlib.core import still_known
+                if who == "wild" and not strict_terminators and still_known("C10", "eh-frame-early-terminator"):
+                    # known finding: tolerated here so that the records after the terminator are still checked
+                    out["early_terminator"] = True
+                    continue
                 raise Violation("eh-frame-early-terminator", f"{who}: zero terminator at offset {t:#x} of .eh_frame "
                                 f"(size {sec.size:#x}) hides the records after it")
         out["fdes"], out["cies"] = fdes, cies
@@ -142,6 +147,9 @@ def asm_strategy():
         "funcs": st.lists(func, min_size=3, max_size=30),
         "roots": st.lists(st.integers(0, 29), min_size=1, max_size=4),
         "order": st.booleans(),
+        # position (in link order) of an object whose .eh_frame is only a zero terminator, as crtend.o's is;
+        # None = no such object. Objects after it must still get correct FDE addresses.
+        "term": st.sampled_from([None, None, None, 0, 1, 2]),
     })
 
 
@@ -311,6 +319,9 @@ class C10(Check):
             objs.append(f"o{obj}.o")
         if case["order"]:
             objs = [objs[0]] + objs[1:][::-1]
+        if case.get("term") is not None:
+            slow.asm('.section .eh_frame,"a",@progbits\n.long 0\n', "term.o", cwd=d)
+            objs.insert(min(case["term"] + 1, len(objs)), "term.o")
         return cies, funcs, roots, objs
 
     def asm_link_args(self, case, who, objs, out):
@@ -415,7 +426,7 @@ class C10(Check):
                 res[who] = None
                 continue
             try:
-                parsed = eh_validate(f"{d}/{out}", who, case["hdr"])
+                parsed = eh_validate(f"{d}/{out}", who, case["hdr"], ctx.strict)
                 retained, covered = self.asm_semantic(who, parsed, funcs)
             except Violation as v:
                 if who != "wild":
@@ -440,6 +451,10 @@ class C10(Check):
         shared_cie = any(len(v) >= 2 for v in cie_users.values())
         classes = [f"asm:{case['kind']}", "gc" if case["gc"] else "nogc", "hdr" if case["hdr"] else "nohdr",
                    f"threads:{case['threads']}"]
+        if case.get("term") is not None:
+            classes.append("mid-link-terminator")
+        if parsed.get("early_terminator"):
+            classes.append("early-terminator-tolerated")
         if dropped_fde:
             classes.append("gc-dropped-fde")
         if comdat_dups:
@@ -566,7 +581,7 @@ class C10(Check):
             parsed = []
             for fn in files:
                 try:
-                    parsed.append(eh_validate(f"{d}/{fn}", who, False))  # gcc decides about --eh-frame-hdr
+                    parsed.append(eh_validate(f"{d}/{fn}", who, False, ctx.strict))  # gcc decides about --eh-frame-hdr
                 except Violation as v:
                     if who != "wild":
                         raise Inconclusive(f"oracle self-check failed: validator flags {who} output {fn}: {v}")
